@@ -153,11 +153,11 @@ def run(ctx):
     ctx.check("C09.3", ok, fi, last[-1].node if last else fi.node, "PD: unknown include_noise string", "raises ValueError", "an unknown include_noise string does not end in ValueError")
     # ---------------- guards
     for p in ("r", "T", "R_load"):
-        check_type_guard(ctx, "C09.5", fi, p, "TypeError", must_accept=["int", "float"], must_reject=["str", "list", "np.ndarray"])
+        check_type_guard(ctx, "C09.5", fi, p, "TypeError", must_accept=["int", "float"], must_reject=["str", "list", "np.ndarray"], samples={"int": 1, "float": Fraction(1, 2)})
     check_range_guard(ctx, "C09.5", fi, "r", Reject(lambda x: x <= 0 or x > 1, [0, 1]), "ValueError", "r outside (0, 1]", accept_sample=[Fraction(1, 2), 1])
     check_range_guard(ctx, "C09.5", fi, "T", Reject(lambda x: x < 0, [0]), "ValueError", "T < 0", accept_sample=[0, 300])
     check_range_guard(ctx, "C09.5", fi, "R_load", Reject(lambda x: x < 0, [0]), "ValueError", "R_load < 0", accept_sample=[50])
-    check_type_guard(ctx, "C09.5", fi, "include_noise", "TypeError", must_accept=["str"], must_reject=["int", "list"])
+    check_type_guard(ctx, "C09.5", fi, "include_noise", "TypeError", must_accept=["str"], must_reject=["int", "list"], samples={"str": Const("all")})
     it = Interp(pkg, assumptions={"input": ("notinst", "optical_signal")})
     outs = it.run(fi)
     ctx.check("C09.5", bool(outs) and outs[0].kind == "raise" and outs[0].exc == "TypeError", fi, fi.node, "PD: non-optical input", "raises TypeError", "non-optical input is not rejected with TypeError first")
